@@ -102,14 +102,14 @@ func runMonitor(p qbftsim.Prog) *prog.Result {
 				leaderOK := false
 				for _, pm := range s.Pool {
 					m := pm.Msg
-					if m.Message.MsgType == specqbft.ProposalMsgType && m.Message.Round == ev.Returned.Message.Round && m.Message.Root == ev.Returned.Message.Root &&
-						len(m.Signers) == 1 && uint64(m.Signers[0]) == leaderOf(p, ev.Returned.Message.Round) {
+					if m.Message.MsgType == specqbft.ProposalMsgType && m.Message.Height == ev.Returned.Message.Height && m.Message.Round == ev.Returned.Message.Round && m.Message.Root == ev.Returned.Message.Root &&
+						len(m.Signers) == 1 && uint64(m.Signers[0]) == leaderOf(p, ev.Returned.Message.Height, ev.Returned.Message.Round) {
 						leaderOK = true
 					}
 				}
 				if !leaderOK {
 					return fail("local-decision-without-leader-proposal", "op%d decided locally in round %d on %s but no proposal for it by the round's leader op%d was ever sent",
-						ev.Op, ev.Returned.Message.Round, qbftsim.RootName(ev.Returned.Message.Root), leaderOf(p, ev.Returned.Message.Round))
+						ev.Op, ev.Returned.Message.Round, qbftsim.RootName(ev.Returned.Message.Root), leaderOf(p, ev.Returned.Message.Height, ev.Returned.Message.Round))
 				}
 			}
 		}
@@ -140,9 +140,9 @@ func runMonitor(p qbftsim.Prog) *prog.Result {
 	return res
 }
 
-func leaderOf(p qbftsim.Prog, round specqbft.Round) uint64 {
+func leaderOf(p qbftsim.Prog, height specqbft.Height, round specqbft.Round) uint64 {
 	n := uint64(p.N)
-	return (p.Height%n+uint64(round)%n+n-1)%n + 1
+	return (uint64(height)%n+uint64(round)%n+n-1)%n + 1
 }
 
 func genMonitor(t *rapid.T) qbftsim.Prog {
@@ -152,6 +152,27 @@ func genMonitor(t *rapid.T) qbftsim.Prog {
 
 func TestPropCertMonitor(t *testing.T) {
 	prog.Check(t, "C02", "TestPropCertMonitor", genMonitor, runMonitor)
+}
+
+// genMonitorDirected: the maximum number of Byzantine operators and, in every script slot, one of the Byzantine
+// strategy scripts (equivocation, lock split, lock split + early decision, invalid-later, replay across heights,
+// commit faults, commit impersonation, type confusion), over several heights.
+func genMonitorDirected(t *rapid.T) qbftsim.Prog {
+	v := true
+	return qbftsim.Gen(t, qbftsim.GenOpts{Ns: []int{4, 4, 4, 7}, MaxOps: 30, VerifyOnly: &v, MultiHeight: true, NetFaults: true, ForceByz: true, Directed: true})
+}
+
+func TestPropCertMonitorDirected(t *testing.T) {
+	prog.Check(t, "C02", "TestPropCertMonitorDirected", genMonitorDirected, runMonitor)
+}
+
+func genMonitorBig(t *rapid.T) qbftsim.Prog {
+	v := true
+	return qbftsim.Gen(t, qbftsim.GenOpts{Ns: []int{7, 10, 13}, MaxOps: 60, VerifyOnly: &v, NetFaults: true, ForceByz: true})
+}
+
+func TestPropCertMonitorBig(t *testing.T) {
+	prog.Check(t, "C02", "TestPropCertMonitorBig", genMonitorBig, runMonitor)
 }
 
 // ---- 2. forgery search ------------------------------------------------------------------------------
@@ -385,5 +406,6 @@ func TestPropCertForgery(t *testing.T) {
 func TestReplay(t *testing.T) {
 	prog.Replay(t, "C02", "TestPropCertMonitor", runMonitor)
 	prog.Replay(t, "C02", "TestPropCertMonitorBig", runMonitor)
+	prog.Replay(t, "C02", "TestPropCertMonitorDirected", runMonitor)
 	prog.Replay(t, "C02", "TestPropCertForgery", runForge)
 }
